@@ -33,7 +33,7 @@ if is_go:
     demo_cmd = f"go test -vet=off -count=1 -run '{runre}' ./{dest_dir}/"
 else:
     dest = os.path.join(wt, "conf", os.path.basename(demo))
-    demo_cmd = f"cd conf && python3 -m unittest -v {os.path.basename(demo)[:-3]}"
+    demo_cmd = f"python3 -m unittest -v conf.{os.path.basename(demo)[:-3]}"
 suite_cmd = "go build ./... && go test -vet=off -count=1 ./pfcpiface/... ./pkg/... ./cmd/... ./internal/..."
 clean()
 # clean tree + demo
